@@ -1,6 +1,8 @@
 package gov
 
 import (
+	"0chain.net/smartcontract/minersc"
+
 	"verif/sim"
 	"verif/worlds/ledger"
 )
@@ -95,5 +97,18 @@ func init() {
 			genC48(r, p, tier)
 		},
 		Setup: func(w *ledger.World, r *ledger.Runner) { registerOps(r) },
+	})
+	// the view-change histories (registrations, stakes, DKG messages, payFees with block rewards) as a
+	// workload of their own, so that the core oracles see minting, stake pools and the DKG records
+	ledger.RegisterWorkload(&ledger.Workload{
+		Name:     "govvc",
+		GenExtra: genVC(false),
+		Setup: func(w *ledger.World, r *ledger.Runner) {
+			registerOps(r)
+			agentReg[r] = newAgents(w, r)
+			for i, k := range phaseCfg {
+				minersc.PhaseRounds[minersc.Phase(i)] = r.Plan.CfgInt(k, 2)
+			}
+		},
 	})
 }
